@@ -1,4 +1,4 @@
-CONSTANTS Maps <- MCQMaps  UMaps <- MCUMaps  Hops <- MCHops  Steps <- MCSteps  NMax = 40
+CONSTANTS Maps <- MCQMaps  UMaps <- MCUMaps  Hops <- MCHops  Steps <- MCSteps  NMax = 38
 SPECIFICATION Spec
-INVARIANTS TypeOK ClosedForm Periodic FullRound NeverInvalid
+INVARIANTS TypeOK ClosedForm Periodic FullRound NeverInvalid RemapAgree
 PROPERTIES InMap FullIdentity TableForm
